@@ -15,6 +15,7 @@ type exclusions struct {
 	destructure bool // C06-destructured-slot-props-empty: `="{ a, b }"` whose content reads a or b
 	frozen      bool // C06-include-in-slot-content-frozen: include tag in content that fills a slot more than once
 	tmplRoot    bool // C06-template-root-evaluated-twice: v-if on scoped variables when a component has a <template> root
+	shortNested bool // C06-shorthand-tag-in-slot-content-not-resolved: shorthand tag inside content supplied to a shorthand tag
 	layoutLeak  bool // C06-layout-leaks-instance-slot-content: layout instance lacking a name the page supplies somewhere
 }
 
